@@ -333,22 +333,30 @@ def h_plumbing(ctx):
     # the section header table has no prescribed order: the relocation section may come after its target (what assemblers emit)
     # or before it; it names its target through sh_info and its symbol table through sh_link
     first = cfg.get('order') == 'before'
-    idx = dict(rela=1, info=2, abbrev=3, strtab=4, symtab=5) if first else dict(info=1, abbrev=2, strtab=3, symtab=4, rela=5)
+    # the relocated section: .debug_info by default, or any other section get_dwarf_info hands to DWARFInfo (then .debug_info is a bystander)
+    target = cfg.get('target', '.debug_info')
+    other = target != '.debug_info'
+    names = ['info', 'abbrev', 'strtab', 'symtab'] + (['target'] if other else [])
+    names = (['rela'] + names) if first else (names + ['rela'])
+    idx = {n: i + 1 for i, n in enumerate(names)}
+    tkey = 'target' if other else 'info'
     payload = ctx.bytes('p', 12)
     doff = img.blob(payload)
+    ioff = img.blob([0x11] * 12) if other else doff
     abbr = img.blob([0])
     stroff = img.blob([0, 0x61, 0])
     sval = ctx.uint('st_value', 64)
-    symoff = img.blob(L.encode('SYM', 64, True, {}) + L.encode('SYM', 64, True, dict(st_name=1, st_value=sval, st_info=0x12, st_shndx=idx['info'])), align=8)
+    symoff = img.blob(L.encode('SYM', 64, True, {}) + L.encode('SYM', 64, True, dict(st_name=1, st_value=sval, st_info=0x12, st_shndx=idx[tkey])), align=8)
     addend = ctx.sint('r_addend', 64)
     roff = ctx.int_range('r_offset', 0, 8)
     reloff = img.blob(L.encode('RELA', 64, True, dict(r_offset=roff, r_info=(1 << 32) | 10, r_addend=addend)), align=8)
     defs = dict(
-        info=lambda: img.section('.debug_info', sh_type=1, sh_offset=doff, sh_size=12),
+        info=lambda: img.section('.debug_info', sh_type=1, sh_offset=ioff, sh_size=12),
+        target=lambda: img.section(target, sh_type=1, sh_offset=doff, sh_size=12),
         abbrev=lambda: img.section('.debug_abbrev', sh_type=1, sh_offset=abbr, sh_size=1),
         strtab=lambda: img.section('.strtab', sh_type=3, sh_offset=stroff, sh_size=3),
         symtab=lambda: img.section('.symtab', sh_type=2, sh_offset=symoff, sh_size=48, sh_entsize=24, sh_link=idx['strtab'], sh_info=1),
-        rela=lambda: img.section(relname, sh_type=4, sh_offset=reloff, sh_size=24, sh_entsize=24, sh_link=idx['symtab'], sh_info=idx['info']))
+        rela=lambda: img.section(relname, sh_type=4, sh_offset=reloff, sh_size=24, sh_entsize=24, sh_link=idx['symtab'], sh_info=idx[tkey]))
     for name in sorted(idx, key=idx.get):
         assert defs[name]() == idx[name]
     img.add_shstrtab()
@@ -358,20 +366,32 @@ def h_plumbing(ctx):
         # or the other way round): each call answers for its own arguments
         elf.get_dwarf_info(relocate_dwarf_sections=not relocate)
     di = elf.get_dwarf_info(relocate_dwarf_sections=relocate)
-    got = list(di.debug_info_sec.stream.getvalue())
+    desc = getattr(di, target[1:] + '_sec')
+    ctx.check('plumbing/section-handed-over/%s' % target, desc is not None)
+    if desc is None:
+        ctx.outcome('ok')
+        return
+    got = list(desc.stream.getvalue())
     ctx.outcome('ok')
-    applies = relocate and relname == '.rela.debug_info'
+    applies = relocate and relname == '.rela' + target
     if not applies:
         ctx.check_eq('plumbing/unchanged/%s/%s' % (relname, relocate), got, list(payload))
     else:
         o = ctx.concretize(roff)
         want = (sval + addend) & 0xffffffff
-        ctx.check_eq('plumbing/applied/field', got[o:o + 4], enc.enc_int(want, 4, True))
-        ctx.check_eq('plumbing/applied/rest', got[:o] + got[o + 4:], list(payload[:o]) + list(payload[o + 4:]))
-    ctx.check_eq('plumbing/size', di.debug_info_sec.size, 12)
+        ctx.check_eq('plumbing/applied/%s/field' % target, got[o:o + 4], enc.enc_int(want, 4, True))
+        ctx.check_eq('plumbing/applied/%s/rest' % target, got[:o] + got[o + 4:], list(payload[:o]) + list(payload[o + 4:]))
+    if other:
+        ctx.check_eq('plumbing/bystander-section-unchanged', list(di.debug_info_sec.stream.getvalue()), [0x11] * 12)
+    ctx.check_eq('plumbing/size', desc.size, 12)
     # the file itself is never modified
     elf.stream.seek(doff)
     ctx.check_eq('plumbing/file-untouched', elf.stream.read(12), ctx.mkbytes(payload))
+
+
+# every section of the DWARF standard (and the GNU / LSB call-frame section) that get_dwarf_info hands to DWARFInfo: each one is relocated by ITS .rela section
+DEBUG_SECTIONS = ['.debug_aranges', '.debug_abbrev', '.debug_frame', '.eh_frame', '.debug_str', '.debug_loc', '.debug_ranges', '.debug_line', '.debug_pubtypes', '.debug_pubnames',
+                  '.debug_addr', '.debug_str_offsets', '.debug_line_str', '.debug_loclists', '.debug_rnglists', '.debug_types']
 
 
 # ------------------------------------------------------------------ instances
@@ -424,6 +444,7 @@ HARNESSES = [
       desc='the relocation tables reached through the dynamic array (DT_REL / DT_RELA / DT_JMPREL; objects carrying BOTH flavours; pointers mapped through two PT_LOAD segments), '
            'section view and segment view (harness shared with C09)'),
     H('h8_5_plumbing', h_plumbing, lambda tier: [dict(relname=n, relocate=r, order=o) for n in ('.rela.debug_info', '.rela.debug_infoX', '.rela.text') for r in (True, False) for o in ('after', 'before')] +
-                                                  [dict(relname='.rela.debug_info', relocate=r, order='after', history=True) for r in (True, False)], expect=('ok',),
+                                                  [dict(relname='.rela.debug_info', relocate=r, order='after', history=True) for r in (True, False)] +
+                                                  [dict(relname='.rela' + t, target=t, relocate=r, order=o) for t in DEBUG_SECTIONS for r, o in ((True, 'after'), (True, 'before'), (False, 'after'))], expect=('ok',),
       desc='generated relocatable x86-64 image: get_dwarf_info(relocate_dwarf_sections) applies exactly the .rela<name> section to the copy handed to DWARFInfo and never touches the file'),
 ]
